@@ -630,6 +630,48 @@ func init() {
 		})
 	}
 
+	// S-newview-vs-election: the follower is in (h1,v0); the correct leader's NEW_VIEW for view 1 (three genuine votes, a
+	// fresh block, an ordinary validator) races the expiry of the node's own (h1,v0) timer. Only ONE expiry is allowed, so
+	// the node's view never exceeds 1: in every schedule the NEW_VIEW reaches a member "whose view is not higher and that
+	// has not yet accepted a proposal for that view" and must be adopted (C11): a PREPARE for view 1 goes out, whether
+	// the main loop has already timed view 0 out, is doing so during the validation, or does so afterwards.
+	registerBoth("S-newview-vs-election", []string{"C11", "C15", "C19"}, 1, 3, 4, func(x *X, cancel bool) {
+		n := newNode(x, 2)
+		n.Boot()
+		s := x.S
+		blk := kit.NewBlock(1, "B1")
+		var votes []*interfaces.ViewChangeMessage
+		for _, i := range []int{0, 1, 3} {
+			votes = append(votes, n.fac(i, nil).CreateViewChangeMessage(1, 1, nil))
+		}
+		f := n.fac(1, nil)
+		ppb := f.CreatePreprepareMessageContentBuilder(1, 1, blk, kit.HashOf(blk))
+		msg := f.CreateNewViewMessage(1, 1, ppb, interfaces.ExtractConfirmationsFromViewChangeMessages(votes), blk).ToConsensusRawMessage()
+		delivered := false
+		s.Thread("feeder", func() {
+			n.M.HandleConsensusMessage(n.Ctx, msg)
+			delivered = true
+		})
+		var ss []sample
+		observer(n, &ss, 2)
+		addCancel(n, cancel)
+		if !s.Run(20000) {
+			x.Bad("C16", "livelock", "step horizon reached")
+		}
+		if !cancel && delivered && s.Quiescent() {
+			prepared := false
+			for _, i := range n.Sent {
+				if i.Kind == ref.KP && i.Hdr.View == 1 {
+					prepared = true
+				}
+			}
+			if !prepared {
+				x.Bad("C11", "newview-lost-to-own-timeout", "the correct leader's NEW_VIEW for view 1 reached the node while its view was not higher (final view %d, %d expiries) but was not adopted: no PREPARE for view 1 (events %v)", n.M.State().View(), s.Fires, tail(n.Events, 8))
+			}
+		}
+		finish(x, n, ss, "")
+	})
+
 	// S-stale-trigger+cancel: an election trigger is already waiting in the worker's queue while the worker is held
 	// inside a slow ValidateBlockProposal; a sync then moves the node to the next height (the trigger becomes stale)
 	// and the context is cancelled around the moment the worker picks the stale trigger up. Shutdown must still be
